@@ -440,11 +440,13 @@ theorem backendPublish_stored {s : BState} {c : ConnId} {m : Message} {s' : BSta
   rw [e, get_fanMap]
 
 /-- a QoS>0 message for a matching stored session is appended to its stored queue while there is
-    room — whether the client is online or not -/
+    room — whether the client is online or not; the queued copy is capped by the session's grant
+    at that moment (`applyQOS`, cap at enqueue) -/
 theorem offline_queued {s : BState} {c : ConnId} {m : Message} {s' : BState} {cid : ClientId} {b : BSess}
     (h : backendPublish s c m = .ok s') (hb : Assoc.get s.stored cid = some b)
     (hsub : (subQos b m.topic).isSome = true) (hq : m.qos ≠ 0) (hroom : b.storedQ.length < s.cfg.queue) :
-    ∃ b', Assoc.get s'.stored cid = some b' ∧ b'.storedQ = b.storedQ ++ [{ m with retain := false }] ∧
+    ∃ b', Assoc.get s'.stored cid = some b' ∧
+      b'.storedQ = b.storedQ ++ [applyQOS b { m with retain := false }] ∧
       b'.sess = b.sess ∧ b'.subs = b.subs := by
   rw [backendPublish_stored h, hb]
   refine ⟨_, rfl, ?_⟩
